@@ -129,7 +129,7 @@ PROPS = {
     "C19": {"driver": _lazy("pwv.drivers_pure", "c19_driver"), "profile": "contract-overlap",
             "rule": "contract on Envelope.overlap_integral against the closed-form Gaussian overlap, plus exchange symmetry; pulse widths log-uniform over 1e-15..10 s including the 42.45 fs default, centre offsets and delays 0..8 widths, both argument orders; a case = one judged call; cell = (decade of the narrower width, equal/unequal widths, delay in widths)"},
     "C01": {"profile": "ops", "oracles": [lambda r: O.judge_apply(r, "C01")]},
-    "C02": {"profile": "structure", "oracles": [O.judge_c02]},
+    "C02": {"profile": "structure", "oracles": [O.judge_c02], "opts": {"multi_ce": 0.25}},
     "C03": {"profile": "composite", "oracles": [lambda r: O.judge_apply(r, "C03")]},
     "C04": {"profile": "measure", "oracles": [lambda r: O.judge_measure(r, "C04")], "free_mix": 0.25},
     "C05": {"profile": "measure", "oracles": [lambda r: O.judge_measure(r, "C05"), O.judge_dead_probe],
@@ -137,6 +137,6 @@ PROPS = {
     "C06": {"profile": "kraus", "oracles": [O.judge_c06]},
     "C07": {"profile": "invariants", "oracles": [O.judge_c07]},
     "C09": {"profile": "povm", "oracles": [O.judge_c09], "free_mix": 0.2},
-    "C13": {"profile": "graph", "oracles": [O.judge_c13], "opts": {"env_max": 4}},
-    "C20": {"profile": "blocks", "oracles": [O.judge_c20]},
+    "C13": {"profile": "graph", "oracles": [O.judge_c13], "opts": {"env_max": 4, "multi_ce": 0.5}},
+    "C20": {"profile": "blocks", "oracles": [O.judge_c20], "opts": {"multi_ce": 0.3}},
 }
